@@ -5,6 +5,7 @@ import (
 	"fmt"
 
 	"go.lstv.dev/util/roman"
+	"verif/firstuse"
 	"verif/libdefaults"
 	"verif/mc"
 	"verif/oracle"
@@ -195,6 +196,7 @@ func probeReuse(p reuseArg) (string, string) {
 func main() {
 	mc.Main("C02", "every n in [0,130000] x all 128 flag subsets through DefaultFormatter and back through every parser entry point; every n x every DefaultFormat through MarshalText/String/%s and the four verbs; "+
 		"non-trivial = numeral contains a 4 or 9 digit or a five-symbol together with a flag that affects it", func(r *mc.Run) {
+		firstuse.Phase(r, map[string][]string{"roman": {"format", "parse", "valid"}})
 		r.Reset = reset
 		reset()
 		p := mc.NewProbe(r, "roundtrip", setup, probe)
